@@ -546,7 +546,7 @@ def parseFormatEnc (cfg : Cfg) (prev : Nat) (s : St) (src : Src) : Out :=
     match nextvis f s src with
     | (none, s1, src1) =>
       let s2 := { s1 with curr := Flag.name }
-      if s2.path.elems.isEmpty && cfg.eof == -2 then (-2, s2, src1) else err .MissingData s2 src1
+      if s2.path.elems.isEmpty && cfg.eof == -2 then (0, s2, src1) else err .MissingData s2 src1
     | (some c, s1, src1) =>
       if c != f.sstart then encOption cfg s1 c src1 else encSection cfg s1 src1
 
